@@ -219,7 +219,7 @@ Proof.
         destruct (mem_var y S) eqn:Ey.
         -- apply mem_var_In in Ey.
            assert (Ey' : mem_var y (filter (fun u => negb (N.eqb u x)) S) = true).
-           { apply mem_var_In. apply filter_In. split; auto. destruct (N.eqb_spec y x); congruence. }
+           { apply mem_var_In. apply filter_In. split; auto. destruct (N.eqb_spec y x); [contradiction|reflexivity]. }
            rewrite Ey'. reflexivity.
         -- apply mem_var_nIn in Ey.
            assert (Ey' : mem_var y (filter (fun u => negb (N.eqb u x)) S) = false).
@@ -280,13 +280,15 @@ Qed.
 
 Lemma nn_prodG g dom : (forall x, In x dom -> nn (g x)) -> nn (prodG g dom).
 Proof.
-  induction dom as [|x dom IH]; simpl; intros H; auto. apply nn_mul; auto.
+  induction dom as [|x dom IH]; simpl; intros H; [exact nn_one|].
+  apply nn_mul; [apply H; auto|apply IH; intros; apply H; auto].
 Qed.
 Lemma prodS_le_one a S : (forall q, In q S -> nn (wsel q (a q)) /\ cle (wsel q (a q)) one) ->
   nn (prodS a S) /\ cle (prodS a S) one.
 Proof.
-  induction S as [|q S IH]; simpl; intros H; auto.
-  destruct IH as [IH1 IH2]; auto. destruct (H q) as [H1 H2]; auto.
+  induction S as [|q S IH]; simpl; intros H; [split; [exact nn_one|apply cle_refl]|].
+  destruct IH as [IH1 IH2]; [intros; apply H; auto|]. destruct (H q) as [H1 H2]; [auto|].
+  split; [apply nn_mul; assumption|apply unit_mul; assumption].
 Qed.
 
 (* --- the folds --- *)
@@ -531,7 +533,7 @@ Proof.
       { intros H. rewrite H in E. assert (eqb cur_lb cur_lb = true) by (apply eqb_eq; auto). congruence. }
       assert (P : pre cur_lb (ub cur [])).
       { unfold pre. destruct (choose_cases cur_lb (ub cur [])); congruence. }
-      split; [apply good_leaf; auto|]. cbn [fst snd]. split; auto.
+      split; [apply good_leaf; auto|]. cbn [fst snd]. split; [exact P|].
       intros a Ha. rewrite (ub_leaf cur a I Ha). apply pre_refl.
   - cbn [searchB].
     set (step := fun (best um : T * pm) =>
